@@ -127,7 +127,7 @@ def readcodescilab(dra, indicespath, valuespath, varname='sa'):
     dims = len(dra._arrayinfo['atom']) * ':,'
     rca = f'/* create an anonymous function that returns the k-th subarray */\n' \
           f'/* from the values array: */\n' \
-          f'deff("sa = getsubarray(k)", "sa = v({dims}i(1,k)+1:i(2,k))")\n' \
+          f'deff("sa = getsubarray(k)", "sa = v({dims}double(i(1,k))+1:double(i(2,k)))")\n' \
           f'/* example to read {position} (k={k}) subarray: */\n' \
           f'sa = getsubarray({k});'
     return f'{rci}{rcv}{rca}\n'
@@ -154,7 +154,7 @@ def readcodematlab(dra, indicespath, valuespath, varname='sa'):
     dims = len(dra._arrayinfo['atom']) * ':,'
     rca = f'% create an anonymous function that returns the k-th subarray\n' \
           f'% from the values array:\n' \
-          f'getsubarray = @(k) v({dims}i(1,k)+1:i(2,k));\n' \
+          f'getsubarray = @(k) v({dims}double(i(1,k))+1:double(i(2,k)));\n' \
           f'% example to read {position} (k={k}) subarray:\n' \
           f'sa = getsubarray({k});'
     return f'{rci}{rcv}{rca}\n'
